@@ -150,19 +150,10 @@ class C07(Prop):
             return None
         specs = pc.ctx_specs(case["sigs"])
         init_spec = pc.initial_spec(case["initial"])
-        body0 = pc.body_of(case["argv"])
         # (F-C07a, ValueError from int(), was repaired in /repo by 401bc73: a ValueError
         #  escaping parse_argv is no longer attributable to anything -> VIOLATION)
-        if obs.get("err") == "AttributeError" and case["initial"] == "none":
-            # mechanism: a short-flag cluster is split while machine.context is None
-            def cluster_like(t):
-                # follow the '=' splits: the pushed value is examined as a token of its own
-                while t.startswith("-") and "=" in t:
-                    t = t.partition("=")[2]
-                return t.startswith("-") and not t.startswith("--") and len(t) > 2
-            if any(cluster_like(t) for t in body0):
-                return "F-C07b"
-            return None
+        # (F-C07b, AttributeError without initial context, was repaired by e36c9e6: no longer
+        #  attributable -> VIOLATION)
         if "ok" in obs:
             o = obs["ok"]
             body = pc.body_of(case["argv"])
